@@ -49,6 +49,23 @@ def read_fasta_seqs(path):
         seqs.append(cur)
     return sorted(seqs)
 
+def read_fasta_entries(path):
+    """sorted [header, sequence] pairs (the `order` stream compares headers as well)"""
+    out, h, cur = [], None, ''
+    if not os.path.exists(path):
+        return None
+    for line in open(path):
+        line = line.strip()
+        if line.startswith('>'):
+            if h is not None:
+                out.append([h, cur])
+            h, cur = line[1:], ''
+        elif h is not None:
+            cur += line
+    if h is not None:
+        out.append([h, cur])
+    return sorted(out)
+
 def setup(c):
     """write the world and the GVF files; returns (dir, reference args, gvf paths)"""
     _N[0] += 1
@@ -87,13 +104,57 @@ def call_variant(c, d, ref, gvfs, P):
         argv.append('--skip-failed')
     a = P.parse_args(argv)
     a.func(a)                       # == cli.call_variant_peptide(args)
+    if c.get('headers'):
+        return {'seqs': read_fasta_seqs(out), 'entries': read_fasta_entries(out)}
     return read_fasta_seqs(out)
 
+def mk_record(spec):
+    """a real VariantRecord from {start, end, strand, ref, alt, type, attrs, id}"""
+    from moPepGen.seqvar.VariantRecord import VariantRecord
+    from moPepGen.SeqFeature import FeatureLocation
+    loc = FeatureLocation(seqname='G', start=spec['start'], end=spec['end'], strand=spec['strand'])
+    return VariantRecord(location=loc, ref=spec['ref'], alt=spec['alt'], _type=spec['type'], _id=spec['id'],
+                         attrs=dict(spec.get('attrs') or {}))
+
+def handle_vr(c):
+    """the six comparison methods, __hash__, sorted() and set() on real VariantRecord objects"""
+    recs = [mk_record(x) for x in c['records']]
+    out = {}
+    if c.get('pairs'):
+        out['cmp'] = []
+        for i, j in c['pairs']:
+            a, b = recs[i], recs[j]
+            out['cmp'].append([a == b, a > b, a >= b, a < b, a <= b, hash(a) == hash(b),
+                               a.location == b.location, a.location > b.location])
+    out['sorted'] = [[x.id for x in sorted([recs[k] for k in perm])] for perm in c.get('perms', [])]
+    out['set'] = [sorted(x.id for x in set([recs[k] for k in perm])) for perm in c.get('perms', [])]
+    return out
+
 def handle(c):
+    if c['kind'] == 'vr':
+        return handle_vr(c)
     d, ref, gvfs, P = setup(c)
     try:
         if c['kind'] == 'cli':
-            return {'peptides': call_variant(c, d, ref, gvfs, P)}
+            series = []
+            if c.get('observe_series'):
+                # record (never change) the order of every sorted series with >= 2 transcriptional records
+                from moPepGen.seqvar.VariantRecordPoolOnDisk import TranscriptionalVariantSeries as TVS
+                real_sort = TVS.sort
+                def sort(self):
+                    real_sort(self)
+                    ids = [v.id for v in self.transcriptional]
+                    if len(ids) >= 2 and ids not in series:
+                        series.append(ids)
+                TVS.sort = sort
+            try:
+                r = call_variant(c, d, ref, gvfs, P)
+            finally:
+                if c.get('observe_series'):
+                    TVS.sort = real_sort
+            if c.get('headers'):
+                return {'peptides': r['seqs'], 'entries': r['entries'], 'series': series}
+            return {'peptides': r}
         # ---- kind == 'loop'
         batches, gathered = [], []
         force = set(c.get('force_skip', []))
